@@ -172,9 +172,21 @@ func (e *Engine) execFrom(act *Activation, p *Path, blk *ssa.BasicBlock, start i
 				e.execFrom(act, paths[k], blk, i+1)
 			}
 			p = paths[0]
-		case *ssa.Call, *ssa.Next:
+		case *ssa.Call, *ssa.Next, *ssa.UnOp:
 			var rs []Result
-			if c, ok := x.(*ssa.Call); ok {
+			if u, ok := x.(*ssa.UnOp); ok {
+				if u.Op != token.ARROW {
+					if !e.execSimple(act, p, in) {
+						return
+					}
+					continue
+				}
+				c, ok := e.val(p, u.X).(ChanV)
+				if !ok || c.obj == 0 {
+					unsup("receive from nil/undefined channel")
+				}
+				rs = e.chanRecv(p, c, u.X.Type().Underlying().(*types.Chan).Elem(), act.depth, u.CommaOk)
+			} else if c, ok := x.(*ssa.Call); ok {
 				rs = e.doCall(p, c, act)
 			} else {
 				rs = e.next(p, x.(*ssa.Next))
@@ -237,20 +249,6 @@ func (e *Engine) execSimple(act *Activation, p *Path, in ssa.Instruction) bool {
 			p.regs[x] = e.Un(OpBvNot, asTerm(e.val(p, x.X)))
 		case token.NOT:
 			p.regs[x] = e.Not(asTerm(e.val(p, x.X)))
-		case token.ARROW:
-			c, ok := e.val(p, x.X).(ChanV)
-			if !ok || c.obj == 0 {
-				unsup("receive from nil/undefined channel")
-			}
-			v, okv := e.chanRecv(p, c, x.X.Type().Underlying().(*types.Chan).Elem(), act)
-			if p.st.G.IsFalse() {
-				return false
-			}
-			if x.CommaOk {
-				p.regs[x] = TupleV{v, okv}
-			} else {
-				p.regs[x] = v
-			}
 		default:
 			unsup("unop %s", x.Op)
 		}
